@@ -14,7 +14,7 @@
  * along with this program.  If not, see <https://www.gnu.org/licenses/>.
  */
 
-use std::{cmp, thread};
+use std::{cmp, io, thread};
 use std::fs::{self, canonicalize, create_dir_all, read_link, File, Metadata};
 use std::path::{Path, PathBuf};
 use std::sync::Arc;
@@ -197,7 +197,7 @@ pub fn tree_walker(
             .next_back()
             .ok_or(XcpError::InvalidSource("Failed to find source directory name."))?;
 
-        let target_base = if dest.exists() && dest.is_dir() && !config.no_target_directory {
+        let target_base = if is_dir(dest)? && !config.no_target_directory {
             dest.join(sourcedir)
         } else {
             dest.to_path_buf()
@@ -278,6 +278,16 @@ pub fn tree_walker(
     debug!("Walk-worker finished: {:?}", thread::current().id());
 
     Ok(())
+}
+
+/// Like `Path::is_dir()`, except that a lookup which fails for any
+/// reason other than the path not existing is an error, not a "no".
+fn is_dir(path: &Path) -> Result<bool> {
+    match path.metadata() {
+        Ok(meta) => Ok(meta.is_dir()),
+        Err(e) if e.kind() == io::ErrorKind::NotFound => Ok(false),
+        Err(e) => Err(e.into()),
+    }
 }
 
 fn empty_path(path: &Path) -> bool {
